@@ -114,8 +114,6 @@ def faulty(base):
             if "idle_since" in kw:
                 is_set = kw["idle_since"] is not None
                 bad = self._pop("idle")
-                if not is_set:
-                    TRACE.ops.append(("send",))
                 self.calls.append((4, int(is_set), int(not bad)))
                 if bad:
                     raise Boom("idle")
@@ -303,10 +301,14 @@ def e_err(s):
     return [1, 1, R.XM.get(s, 0)]
 
 
+def _as_int(v):
+    return int(v) if isinstance(v, (int, float)) and not isinstance(v, bool) else -1
+
+
 def e_record(h):
     if h is None:
         return [0]
-    res = [0] if h.result is None else [1, int(h.result.result)]
+    res = [0] if h.result is None else [1, _as_int(getattr(h.result, "result", None))]
     return [1, ST[h.status]] + res + e_err(h.error) + [int(h.idle_since is not None)]
 
 
@@ -315,7 +317,7 @@ def e_outcome(o):
     if o is None:
         return [0]
     if o[0] == "result":
-        return [1, int(o[1].result)]
+        return [1, _as_int(getattr(o[1], "result", None))]
     ex = o[1]
     if isinstance(ex, WorkflowCancelledByUser):
         return [4]
@@ -423,6 +425,10 @@ async def _externals(svc, rt, store, spec, run_id, pending, box, horizon, log_le
         if quiet >= 3 and pending:
             act = pending.pop(0)
             quiet = 0
+            if act[0] != "cancel":
+                # the run is quiescent: the call below reaches IdleReleaseExternalRunAdapter.send_event before any
+                # tick.  (cancel() is forwarded to the inner adapter's cancel and never passes through send_event.)
+                TRACE.ops.append(("send",))
             try:
                 if act[0] == "hr":
                     await svc.send_event("h1", HR(i=900 + act[1], k=act[1]))
@@ -558,7 +564,7 @@ def gen_plan(rng):
     r = rng.random()
     if r < 0.25:
         return {}
-    status = []
+    status = [False] if rng.random() < 0.85 else []      # mostly let the initial record through
     for _ in range(rng.choice([1, 2, 3])):
         status += [False] * rng.choice([0, 0, 1, 2]) + [True] * rng.choice([1, 2, 2, 3, 3, 4])
     plan = {"status": status if rng.random() < 0.8 else []}
